@@ -187,7 +187,15 @@ func NewPod(o PodOpts) *corev1.Pod {
 	}
 	p.Status.Phase = o.Phase
 	if o.Ready {
-		p.Status.Conditions = []corev1.PodCondition{{Type: corev1.PodReady, Status: corev1.ConditionTrue}}
+		p.Status.Conditions = PodConditions(corev1.ConditionTrue)
+	} else if o.Phase == corev1.PodRunning {
+		// Running but not Ready: no Ready condition, Ready=False or Ready=Unknown, by ordinal
+		switch o.Ordinal % 3 {
+		case 1:
+			p.Status.Conditions = PodConditions(corev1.ConditionFalse)
+		case 2:
+			p.Status.Conditions = PodConditions(corev1.ConditionUnknown)
+		}
 	}
 	if o.Terminating {
 		t := fixedTime
@@ -262,6 +270,17 @@ func ControllerOf(m metav1.Object) *metav1.OwnerReference {
 		}
 	}
 	return nil
+}
+
+// PodConditions is the condition list of a scheduled, initialised pod whose Ready condition has the given
+// status (Ready is not the first entry, as on real pods).
+func PodConditions(ready corev1.ConditionStatus) []corev1.PodCondition {
+	return []corev1.PodCondition{
+		{Type: corev1.PodInitialized, Status: corev1.ConditionTrue},
+		{Type: corev1.PodReady, Status: ready},
+		{Type: corev1.ContainersReady, Status: ready},
+		{Type: corev1.PodScheduled, Status: corev1.ConditionTrue},
+	}
 }
 
 func IsReady(p *corev1.Pod) bool {
